@@ -45,8 +45,37 @@ def strip_default_dict(t):
 def is_empty_dict(t):
     return isinstance(t, tuple) and (t in EMPTY_DICTS or (len(t) >= 2 and t[0] in ("dict", "dictlit") and not t[1]) or t == ("ext", "dict", (), ()))
 
+from ..sym import subst  # noqa: E402
+
+NODE_VAR = ("$node",)
+
+
+def node_tables(prog):
+    """{attribute: element expression} for the lists the constructor fills with one entry per node, `self.x = [<expr of k> for k in range(p)]`; the entry
+    is given over the model's own matrix (self.A) and the placeholder NODE_VAR"""
+    from ..sym import subst
+    fc = need(prog, AN + "__init__")
+    Sc = Sym(prog)
+    run_function(Sc, fc)
+    st = {}
+    for a_ in Sc.select("attrstore", qname=fc.qname):
+        st[a_.attr] = None if a_.attr in st else a_.value          # stored once
+    PA = ("param", "A")
+    lens = [("ext", "len", (PA,), ()), ("sub", ("attr", PA, "shape"), ("const", 0))] + ([st["p"]] if st.get("p") else [])
+    out = {}
+    for attr, v in st.items():
+        if v and v[0] == "comp" and v[1] == "list" and len(v[3]) == 1 and not v[3][0][2] and v[3][0][1][0] == "ext" and v[3][0][1][1] == "range" and \
+                len(v[3][0][1][2]) == 1 and v[3][0][1][2][0] in lens:
+            m = {("elem", v[3][0][1]): NODE_VAR, PA: ("self", "A")}
+            if st.get("A"):
+                m[st["A"]] = ("self", "A")
+            out[attr] = subst(v[2], m)
+    return out
+
 
 class AnmCases:
+    tables = {}
+
     def __init__(self, val, i, X, n):
         self.val, self.i, self.X, self.n = val, i, X, n
         self.problems = []
@@ -118,6 +147,11 @@ class AnmCases:
             self.problems.append("assignment called with %d arguments" % len(args))
             return
         a = args[0]
+        # a per-node table prepared by the constructor (self._parents[i] with self._parents = [<expr of k> for k in range(p)]) is that expression at k = i
+        if a[0] == "sub" and a[2][0] == "tuple" and len(a[2][1]) == 2:
+            sel = a[2][1][1]
+            if sel[0] == "sub" and sel[2] == self.i and sel[1][0] == "self" and sel[1][1] in self.tables:
+                a = ("sub", a[1], ("tuple", (a[2][1][0], subst(self.tables[sel[1][1]], {NODE_VAR: self.i}))))
         colA = ("sub", ("self", "A"), ("tuple", (FULL, self.i)))
         masks = [("cmp", "!=", colA, ("const", 0)), ("method", colA, "astype", (("extref", "bool"),), ()),
                  # index lists in increasing order select the same columns in the same order as the boolean mask
@@ -220,8 +254,13 @@ def run(prog, rep, tier):
     n = ("param", "n")
     nxt = strip_default_dict(li["next"][name])          # `x or {}` for an intervention dictionary is that dictionary
     table, bad = {}, []
+    try:
+        tables = node_tables(prog)
+    except Inconclusive:
+        tables = {}
     for d, s, z in itertools.product([False, True], repeat=3):
         ev = AnmCases({"d": d, "s": s, "z": z}, i, X, n)
+        ev.tables = tables
         try:
             out = stored_value(ev, nxt, X, i)
         except Inconclusive as e:
